@@ -18,6 +18,7 @@ package types
 
 import (
 	"fmt"
+	"strconv"
 
 	"github.com/docker/go-units"
 )
@@ -40,6 +41,11 @@ func (u *UnitBytes) DecodeMapstructure(value interface{}) error {
 	case int:
 		*u = UnitBytes(v)
 	case string:
+		// a plain (possibly negative) number of bytes, as written by MarshalYAML / MarshalJSON: -1 is "unlimited"
+		if n, err := strconv.ParseInt(v, 10, 64); err == nil {
+			*u = UnitBytes(n)
+			return nil
+		}
 		b, err := units.RAMInBytes(fmt.Sprint(value))
 		*u = UnitBytes(b)
 		return err
